@@ -117,7 +117,7 @@ type RulesOpt struct {
 }
 
 var otherOps = []string{"@pm", "@streq", "@contains", "@eq", "@ge", "@beginsWith", "@pmFromFile"}
-var varsPool = []string{"ARGS", "REQUEST_HEADERS:User-Agent", "ARGS_NAMES|ARGS", "REQUEST_COOKIES|!REQUEST_COOKIES:/__utm/", "TX:0", "MATCHED_VARS"}
+var varsPool = []string{"&REQUEST_HEADERS:Content-Length", "!ARGS:foo|ARGS", "ARGS", "REQUEST_HEADERS:User-Agent", "ARGS_NAMES|ARGS", "REQUEST_COOKIES|!REQUEST_COOKIES:/__utm/", "TX:0", "MATCHED_VARS"}
 var oldOperands = []string{"old", "foo|bar", `a\"@rx b`, `x\" \x5cy`, `\"@rx foo|bar`, `^(?:a|b)$`, `\bold\b`, `[\"']x`, `a\"b`, "", `(?i)x`, `x\x5cy`, `$`}
 
 // GenRulesFile draws a rules file whose rule ids all start with o.Prefix.
